@@ -3,6 +3,7 @@ C08 — Export then load round-trips geometry in every supported format.
 Property theorems only (the byte layouts that are trimesh's own code); helper lemmas live in Proofs/Codec.lean.
 -/
 import TrimeshVerif.Proofs.Codec
+import TrimeshVerif.Generated.C08Tables
 namespace TV.C08
 open TV.Codec
 
@@ -100,5 +101,54 @@ theorem C08_text_rows (col row : Char) (hcr : col ≠ row) (rows : List (List To
 /-- **base64 is lossless** (the dict64 / base64 array encodings) -/
 theorem C08_base64 (b : Bytes) (h : isBytes b) : b64dec (b64enc b) = b := by
   exact b64dec_b64enc b h
+
+
+/-! ### (G) layout tables regenerated from the source on every run (Generated/C08Tables.lean) -/
+
+section tables
+open TV.Generated.C08
+
+/-- width in bytes of a numpy type code such as `i4`, `<f4`, `u2`, `V` (one byte per element) -/
+def codeWidth (c : String) : Nat :=
+  match c.toList.reverse with
+  | '1' :: _ => 1 | '2' :: _ => 2 | '4' :: _ => 4 | '8' :: _ => 8 | _ => 1
+
+/-- (G) **PLY type names survive export and reload**: the name the exporter writes for a numpy type
+    (`_inverse_dtypes`) is read back by the loader (`_dtypes`) as the same numpy type, for every entry -/
+theorem C08_ply_type_names_roundtrip :
+    plyInverse.all (fun kv => plyDtypes.lookup kv.2 == some kv.1) = true := by decide
+
+/-- (G) **the binary STL record of the source is the record of the model**: normals (3 x float32), vertices
+    (9 x float32), attribute (uint16), in that order - twelve 32-bit words and one 16-bit word, 50 bytes
+    (`C08_stl_record`); the header is 80 bytes and a little-endian uint32 count, 84 bytes -/
+theorem C08_stl_layout :
+    stlRecord = [("normals", "<f4", 3), ("vertices", "<f4", 9), ("attributes", "<u2", 1)] ∧
+    (stlRecord.map (fun f => codeWidth f.2.1 * f.2.2)).sum = 50 ∧
+    stlHeader = [("header", "V", 80), ("face_count", "<u4", 1)] ∧
+    (stlHeader.map (fun f => codeWidth f.2.1 * f.2.2)).sum = 84 := by decide
+
+/-- (G) **GLB magic numbers**: the words of the source are the ones the framing model writes and tests, and
+    they spell `glTF`, `JSON`, `BIN\0` in little-endian bytes -/
+theorem C08_gltf_magic :
+    gltfMagic = [("gltf", magicGltf), ("json", magicJson), ("bin", magicBin)] ∧
+    le32 magicGltf = [0x67, 0x6C, 0x54, 0x46] ∧ le32 magicJson = [0x4A, 0x53, 0x4F, 0x4E] ∧
+    le32 magicBin = [0x42, 0x49, 0x4E, 0x00] := by decide
+
+/-- (G) glTF component types are little-endian codes of distinct numbers, and accessor shapes have the
+    component counts of the specification -/
+theorem C08_gltf_types :
+    gltfDtypes.all (fun kv => kv.2.toList.head? == some '<') = true ∧
+    (gltfDtypes.map (·.1)).Nodup ∧ (gltfDtypes.map (·.2)).Nodup ∧
+    gltfShapes = [("SCALAR", 1), ("VEC2", 2), ("VEC3", 3), ("VEC4", 4), ("MAT2", 4), ("MAT3", 9), ("MAT4", 16)] := by
+  decide
+
+/-- (G) the loader's PLY table maps every name to a code whose width is the digit it ends with, and the
+    exporter never writes a name the loader does not know -/
+theorem C08_ply_tables_total :
+    plyInverse.all (fun kv => (plyDtypes.lookup kv.2).isSome) = true ∧
+    plyDtypes.all (fun kv => codeWidth kv.2 == 1 || codeWidth kv.2 == 2 || codeWidth kv.2 == 4 || codeWidth kv.2 == 8) = true := by
+  decide
+
+end tables
 
 end TV.C08
